@@ -1,7 +1,156 @@
-//! Kaufman — reference model (TODO).
+//! Kaufman Adaptive Moving Average. Doc: 1 value — `KAMA`; linked formula (corporatefinanceinstitute /
+//! marketvolume / wikipedia-ru):
+//!     ER  = |src_t − src_{t−n}| / Σ_{last n changes} |src_i − src_{i−1}|      (n = `period1`)
+//!     SC  = ER · (fast − slow) + slow,  fast = 2/(`period2` + 1), slow = 2/(`period3` + 1),
+//!           squared ("double smoothing", `square_smooth`)
+//!     KAMA_t = KAMA_{t−1} + SC · (src_t − KAMA_{t−1})
+//! 1 signal: `filter_period` ≤ 1: `source` crosses `KAMA` upwards: full buy, downwards: full sell,
+//!   otherwise none; `filter_period` > 1: "the same cross, but with additional filtering using standard
+//!   deviation" (multiplier `k`).
 use super::*;
 
-/// returns None until the reference is written
-pub fn make(_cfg: &Cfg, _c0: &RC) -> Option<Box<dyn IndRef>> {
-	None
+#[derive(Clone)]
+pub struct Kaufman {
+	src: String,
+	fast: f64,
+	slow: f64,
+	square: bool,
+	filter_period: usize,
+	k: f64,
+	n: usize,
+	candles: std::collections::VecDeque<RC>,
+	change: rm::Win,
+	vol: rm::Win,
+	kama: Q,
+	// signal (on the indicator's own values)
+	x: CrossD,
+	var: rm::Win,
+	latch: i32,
+	latch_value: f64,
+	/// the filter comparison fell inside the rounding of the deviation: the latch may or may not be set
+	unsure: bool,
+}
+
+/// the source as a plain number (for the exact evaluation of the signal rule)
+fn src_f64(c: &RC, kind: &str) -> f64 {
+	match kind {
+		"close" => c.c,
+		"open" => c.o,
+		"high" => c.h,
+		"low" => c.l,
+		"hl2" => (c.h + c.l) * 0.5,
+		"tp" => (c.h + c.l + c.c) / 3.0,
+		"volume" => c.v,
+		"volumed_price" => (c.h + c.l + c.c) / 3.0 * c.v,
+		o => panic!("unknown source {o}"),
+	}
+}
+
+pub fn make(cfg: &Cfg, c0: &RC) -> Option<Box<dyn IndRef>> {
+	let src = cfg.src("source");
+	let n = cfg.int("period1");
+	let fp = cfg.int("filter_period");
+	let s0 = source(c0, &src);
+	Some(Box::new(Kaufman {
+		fast: 2.0 / (cfg.int("period2") as f64 + 1.0),
+		slow: 2.0 / (cfg.int("period3") as f64 + 1.0),
+		square: cfg.boolean("square_smooth"),
+		filter_period: fp,
+		k: cfg.float("k"),
+		n,
+		candles: std::iter::repeat(*c0).take(n + 1).collect(),
+		change: rm::Win::new_q(rm::WinKind::Momentum, n, s0),
+		vol: rm::Win::new_q(rm::WinKind::LinVol, n, s0),
+		// constant prehistory: KAMA − source = 0 is the fixed point of the recursion
+		kama: s0,
+		// previous difference in the prehistory: source − KAMA = 0
+		x: CrossD::new(0.0),
+		// deviation of the KAMA line; its prehistory is the constant source
+		var: rm::Win::new(rm::WinKind::Variance, fp.max(2), src_f64(c0, &src)),
+		latch: 0,
+		latch_value: src_f64(c0, &src),
+		unsure: false,
+		src,
+	}))
+}
+
+impl IndRef for Kaufman {
+	fn values(&mut self, c: &RC) -> Vec<Q> {
+		let s = source(c, &self.src);
+		let direction = self.change.step(s).abs();
+		let volatility = self.vol.step(s);
+		self.candles.push_back(*c);
+		while self.candles.len() > self.n + 1 {
+			self.candles.pop_front();
+		}
+		// exact predicate of the inputs: no change at all within the window (exactly known source values
+		// that are all equal, or one and the same candle throughout)
+		let flat = volatility.v == 0.0 && (self.vol.input.last_n(self.n + 1).iter().all(|q| q.r == 0.0) || self.candles.iter().all(|x| x == c));
+		let er = if flat {
+			// † follows the implementation: without any change in the window (ER = 0/0) the ratio counts as 0
+			Q::exact(0.0)
+		} else if volatility.v == 0.0 {
+			// equal up to the rounding of the source only: the guard cannot be decided, but a ratio it is
+			Q::new(0.5, 0.5)
+		} else {
+			let q = direction / volatility;
+			// |net change| <= Σ|changes|: the ratio always lies in [0, 1]
+			if q.is_defined() { q.clamp(0.0, 1.0) } else { Q::new(0.5, 0.5) }
+		};
+		let mut sc = er.scale(self.fast - self.slow) + Q::exact(self.slow);
+		if self.square {
+			sc = sc * sc;
+		}
+		// KAMA + SC·(src − KAMA): the previous KAMA enters twice, so the radius is propagated by hand:
+		// (1 − SC)·R_kama + SC·R_src + |src − KAMA|·R_sc + rounding
+		let k = self.kama;
+		if !k.is_defined() || !s.is_defined() || !sc.is_defined() {
+			self.kama = Q::undefined();
+			return vec![self.kama];
+		}
+		let v = k.v + sc.v * (s.v - k.v);
+		let r = (1.0 - sc.v).abs() * k.r + sc.v.abs() * s.r + (s.v - k.v).abs() * sc.r + sc.r * (k.r + s.r) + 8.0 * crate::eps() * v.abs().max(s.v.abs()).max(k.v.abs());
+		self.kama = Q::new(v, r);
+		vec![self.kama]
+	}
+	fn signals(&mut self, c: &RC, own: &[f64]) -> Vec<Sig> {
+		let s = src_f64(c, &self.src);
+		let kama = own[0];
+		let cross = self.x.cross(s, kama);
+		if self.filter_period <= 1 {
+			return vec![sig_sign(cross)];
+		}
+		// † follows the implementation (the documentation only says "additional filtering using standard
+		// deviation"): a cross is not reported on its own step; it is remembered together with the KAMA
+		// value of that step and reported on the first later step without a new cross on which KAMA has
+		// moved away from the remembered value by more than k · StDev(KAMA, filter_period); a new cross
+		// replaces the remembered one.
+		let filter = self.var.step(Q::exact(kama)).sqrt().scale(self.k);
+		if cross != 0 {
+			self.latch = cross;
+			self.latch_value = kama;
+			self.unsure = false;
+			return vec![Sig::None];
+		}
+		if self.unsure {
+			return vec![Sig::Any];
+		}
+		if self.latch == 0 {
+			return vec![Sig::None];
+		}
+		let moved = (kama - self.latch_value).abs();
+		if !filter.is_defined() || (moved >= filter.lo() && moved <= filter.hi()) {
+			// the comparison is decided by the rounding of the deviation
+			self.unsure = true;
+			return vec![Sig::Any];
+		}
+		if moved > filter.hi() {
+			let out = sig_sign(self.latch);
+			self.latch = 0;
+			vec![out]
+		} else {
+			vec![Sig::None]
+		}
+	}
+	indref!(Kaufman);
 }
